@@ -15,9 +15,10 @@ def gen_case(rnd):
     hermitian = rnd.random() < 0.4
     dims = [rnd.randint(1, 3) for _ in range(k + 1)]
     if hermitian:
-        # make it a genuinely Hermitian product A† A (two factors) or palindromic
+        # make it a genuinely Hermitian product: A† A, A† B A with B Hermitian, or A† B† B A
         if k == 2: dims[2] = dims[0]
-        else: hermitian = False
+        elif k == 3: dims[2] = dims[1]; dims[3] = dims[0]
+        else: dims[3] = dims[1]; dims[4] = dims[0]
     maxo = [rnd.randint(0, 2) for _ in range(nparams)]
     factors = []
     for f in range(k):
@@ -30,45 +31,78 @@ def gen_case(rnd):
                     if r < 0.42 and dims[f] == dims[f + 1] and i == j and not any(n): elems[(i, j) + n] = "one"; continue
                     elems[(i, j) + n] = np.array([[rnd.randint(-2, 2) for _ in range(D)] for _ in range(D)], dtype=object)
         factors.append({"rows": dims[f], "cols": dims[f + 1], "elems": elems})
-    if hermitian:  # second factor = adjoint of first
-        e0 = factors[0]["elems"]; e1 = {}
-        for (i, j, *n), v in e0.items():
+    def adjoint_of(fac):
+        e1 = {}
+        for (i, j, *n), v in fac["elems"].items():
             e1[(j, i, *n)] = v if isinstance(v, str) else v.T.copy()
-        factors[1] = {"rows": dims[1], "cols": dims[0], "elems": e1}
+        return {"rows": fac["cols"], "cols": fac["rows"], "elems": e1}
+    if hermitian and k == 2:  # second factor = adjoint of first
+        factors[1] = adjoint_of(factors[0])
+    elif hermitian and k == 3:   # A† B A, B Hermitian
+        B = factors[1]; eb = {}
+        for (i, j, *n), v in B["elems"].items():
+            if i <= j:
+                eb[(i, j, *n)] = v if isinstance(v, str) or i != j else v + v.T
+                if i != j: eb[(j, i, *n)] = v if isinstance(v, str) else v.T.copy()
+        factors[1] = {"rows": B["rows"], "cols": B["cols"], "elems": eb}
+        factors[0] = adjoint_of(factors[2])
+    elif hermitian:              # A† B† B A
+        factors[1] = adjoint_of(factors[2]); factors[0] = adjoint_of(factors[3])
     reqs = []
     for _ in range(rnd.randint(2, 6)):
         reqs.append([rnd.randrange(dims[0]), rnd.randrange(dims[k])] + [rnd.randint(0, m + 1) for m in maxo])
     return factors, hermitian, nparams, reqs
 
-def run_impl(factors, hermitian, nparams, reqs):
-    logs = [[] for _ in factors]; series = []
+class OpBoom(Exception): pass
+class OpBaseBoom(BaseException): pass
+FAULTS = {"TypeError": TypeError, "ValueError": ValueError, "RuntimeError": RuntimeError, "user": OpBoom, "base": OpBaseBoom}
+
+def run_impl(factors, hermitian, nparams, reqs, fault=None):
+    """`fault = (k, kind)`: the k-th multiplication of elements raises once; every request is then made twice"""
+    logs = [[] for _ in factors]; series = []; calls = [0]
+    def op(a, b):
+        k = calls[0]; calls[0] += 1
+        if fault is not None and k == fault[0]: raise FAULTS[fault[1]]("injected")
+        return a @ b
     for f, fac in enumerate(factors):
         def ev(*idx, f=f, fac=fac):
             idx = tuple(int(x) for x in idx); logs[f].append(idx)
             v = fac["elems"].get(idx, zero)
             return one if isinstance(v, str) else v
         series.append(BlockSeries(eval=ev, shape=(fac["rows"], fac["cols"]), n_infinite=nparams, name=f"F{f}"))
-    prod = cauchy_dot_product(*series, hermitian=hermitian)
-    outs = []
+    prod = cauchy_dot_product(*series, operator=op, hermitian=hermitian)
+    outs = []; raised = []
+    def show(v):
+        if v is zero: return "zero"
+        if v is one: return "one"
+        return "val " + ";".join(f"{int(x)}/1,0/1" for x in np.asarray(v).reshape(-1))
     for r in reqs:
         try:
-            v = prod[tuple(r)]
-            if v is zero: outs.append("zero")
-            elif v is one: outs.append("one")
-            else: outs.append("val " + ";".join(f"{int(x)}/1,0/1" for x in np.asarray(v).reshape(-1)))
-        except Exception as e:
-            outs.append("E:" + type(e).__name__)
-    return outs, [sorted(set(l)) for l in logs]
+            outs.append(show(prod[tuple(r)]))
+        except BaseException as e:
+            if fault is None:
+                if not isinstance(e, Exception): raise
+                outs.append("E:" + type(e).__name__)
+            else:
+                raised.append(type(e).__name__ + (":" + type(e.__cause__).__name__ if e.__cause__ is not None else ""))
+                try: outs.append(show(prod[tuple(r)]))          # the same request again: must be the undisturbed value
+                except BaseException as e2: outs.append("E-again:" + type(e2).__name__)
+    if fault is not None:
+        from pymablock.series import PENDING
+        def all_series(s, seen):
+            return seen
+        return outs, raised, calls[0]
+    return outs, [sorted(set(l)) for l in logs], calls[0]
 
 def main(seed, ncases, driver, out):
     import re
-    rnd = random.Random(seed); failures = []; stats = {}; samples = []; evals = 0; distinct = 0
+    rnd = random.Random(seed); failures = []; stats = {}; samples = []; evals = 0; distinct = 0; fstats = {}
     proc = subprocess.Popen([driver], stdin=subprocess.PIPE, stdout=subprocess.PIPE, text=True)
     for c in range(ncases):
         if skip(c): continue
         rnd = case_rnd(seed, c)
         factors, hermitian, nparams, reqs = gen_case(rnd)
-        outs, logs = run_impl(factors, hermitian, nparams, reqs)
+        outs, logs, ncalls = run_impl(factors, hermitian, nparams, reqs)
         js = {"cmd": "cauchy", "d": D, "hermitian": hermitian, "requests": reqs,
               "factors": [{"rows": f["rows"], "cols": f["cols"], "elems": [{"idx": list(k), "val": (v if isinstance(v, str) else [f"{int(x)}/1,0/1" for x in v.reshape(-1)])} for k, v in f["elems"].items()]} for f in factors]}
         proc.stdin.write(json.dumps(js) + "\n"); proc.stdin.flush()
@@ -87,8 +121,21 @@ def main(seed, ncases, driver, out):
             failures.append({"case": c, "kind": "value-mismatch", "input": js, "impl": outs, "model": mvals})
         elif [sorted(l) for l in mlogs] != logs:
             failures.append({"case": c, "kind": "request-log-mismatch", "input": js, "impl": logs, "model": [sorted(l) for l in mlogs]})
+        elif ncalls > 0 and not any(v.startswith("E:") for v in mvals):
+            # fault phase (C11): the k-th multiplication raises once; the exception must reach the caller (RuntimeError wrapped),
+            # and the repeated request must return the model's undisturbed value
+            fk = rnd.randrange(ncalls); kind = rnd.choice(sorted(FAULTS)); fstats[kind] = fstats.get(kind, 0) + 1
+            fouts, raised, _ = run_impl(factors, hermitian, nparams, reqs, fault=(fk, kind))
+            want_name = FAULTS[kind].__name__
+            ok_raise = len(raised) == 1 and (raised[0].split(":")[0] == want_name and (kind != "RuntimeError" or True))
+            if kind == "RuntimeError": ok_raise = len(raised) == 1 and raised[0].startswith("RuntimeError")
+            if not ok_raise:
+                failures.append({"case": c, "kind": "fault-not-propagated", "input": js, "fault": [fk, kind], "raised": raised})
+            elif fouts != mvals:
+                failures.append({"case": c, "kind": "value-after-fault-differs", "input": js, "fault": [fk, kind], "impl": fouts, "model": mvals})
     proc.stdin.close()
-    json.dump({"evaluations": evals, "cases": ncases, "distinct_nontrivial": distinct, "failures": failures, "distribution": stats, "samples": samples}, open(out, "w"), default=str)
+    json.dump({"evaluations": evals, "cases": ncases, "distinct_nontrivial": distinct, "failures": failures, "distribution": stats, "samples": samples,
+               "extra": {"operator_faults_injected": fstats}}, open(out, "w"), default=str)
 
 if __name__ == "__main__":
     main(int(sys.argv[1]), int(sys.argv[2]), sys.argv[3], sys.argv[4])
